@@ -12,12 +12,12 @@ CONSTANTS Topics,       \* e.g. {"t1"} or {"t1", "t2"}
           MaxRef,       \* subscriptions / relays per topic
           PeerCounts,   \* numbers of remote subscribers a topic can be given, e.g. {0, 1, 2, 6}
           MaxPub,       \* publishes with readiness per scenario
-          Prelude,      \* which initial situation the histories start from (see Init); its stimuli are part of the history
+          Preludes,     \* the initial situations the histories start from (see Init; subset of 0..5); their stimuli are part of the history
           MaxLen        \* number of stimuli after the prelude
 
-VARIABLES hist, subs, relays, joined, np, advm, findm, pubs, cancelled, held, found
+VARIABLES hist, subs, relays, joined, np, advm, findm, pubs, cancelled, held, found, pre
 
-vars == <<hist, subs, relays, joined, np, advm, findm, pubs, cancelled, held, found>>
+vars == <<hist, subs, relays, joined, np, advm, findm, pubs, cancelled, held, found, pre>>
 
 AdvModes == {"ok", "ok2", "err", "errttl", "hold"}
 FindModes == {"empty", "peers", "hold", "err"}
@@ -35,7 +35,9 @@ Sb(t) == St("subscribe", t, "", 0, 0, "", 0)
 \* Prelude 0: nothing has happened.  1: subscribed to t1.  2: t1 joined, one remote subscriber, a publish (size 2, no
 \* timeout) waits for readiness.  3: the service holds searches, subscribed to t1 (one search is held).
 \* 4: subscription and relay on t1, the service refuses Advertise from now on.  5: the service returns peers, subscribed to t1.
-Init == /\ subs = (IF Prelude \in {1, 3, 4, 5} THEN One ELSE Z) /\ relays = (IF Prelude = 4 THEN One ELSE Z)
+InitP(Prelude) ==
+        /\ pre = Prelude
+        /\ subs = (IF Prelude \in {1, 3, 4, 5} THEN One ELSE Z) /\ relays = (IF Prelude = 4 THEN One ELSE Z)
         /\ joined = (IF Prelude = 0 THEN {} ELSE {"t1"})
         /\ np = (IF Prelude = 2 THEN One ELSE Z)
         /\ advm = (IF Prelude = 4 THEN "err" ELSE "ok")
@@ -48,7 +50,8 @@ Init == /\ subs = (IF Prelude \in {1, 3, 4, 5} THEN One ELSE Z) /\ relays = (IF 
                     [] Prelude = 4 -> <<Sb("t1"), St("relay", "t1", "", 0, 0, "", 0), St("svcadv", "", "", 0, 0, "err", 0)>>
                     [] Prelude = 5 -> <<St("svcfind", "", "", 0, 0, "peers", 0), Sb("t1")>>
                     [] OTHER -> <<>>
-PreLen == CASE Prelude = 1 -> 1 [] Prelude = 2 -> 3 [] Prelude = 3 -> 2 [] Prelude = 4 -> 3 [] Prelude = 5 -> 2 [] OTHER -> 0
+Init == \E p \in Preludes : InitP(p)
+PreLen == CASE pre = 1 -> 1 [] pre = 2 -> 3 [] pre = 3 -> 2 [] pre = 4 -> 3 [] pre = 5 -> 2 [] OTHER -> 0
 
 \* topic symmetry: "t2" is touched only after "t1" has been
 Touched == {hist[i].t : i \in DOMAIN hist}
@@ -57,52 +60,52 @@ MayUse(t) == t = "t1" \/ "t1" \in Touched
 Subscribe(t) == /\ MayUse(t) /\ subs[t] < MaxRef /\ subs' = [subs EXCEPT ![t] = @ + 1] /\ joined' = joined \cup {t}
                 /\ Log(St("subscribe", t, "", 0, 0, "", 0))
                 /\ held' = held \cup (IF advm = "hold" /\ subs[t] + relays[t] = 0 THEN {"adv"} ELSE {}) \cup (IF findm = "hold" THEN {"find"} ELSE {})
-                /\ UNCHANGED <<relays, np, advm, findm, pubs, cancelled, found>>
+                /\ UNCHANGED <<relays, np, advm, findm, pubs, cancelled, found, pre>>
 Cancel(t) == /\ subs[t] > 0 /\ subs' = [subs EXCEPT ![t] = @ - 1]
              /\ Log(St("cancel", t, "", 0, 0, "", 0))
-             /\ UNCHANGED <<relays, joined, np, advm, findm, pubs, cancelled, held, found>>
+             /\ UNCHANGED <<relays, joined, np, advm, findm, pubs, cancelled, held, found, pre>>
 Relay(t) == /\ MayUse(t) /\ relays[t] < MaxRef /\ relays' = [relays EXCEPT ![t] = @ + 1] /\ joined' = joined \cup {t}
             /\ Log(St("relay", t, "", 0, 0, "", 0))
             /\ held' = held \cup (IF advm = "hold" /\ subs[t] + relays[t] = 0 THEN {"adv"} ELSE {}) \cup (IF findm = "hold" THEN {"find"} ELSE {})
-            /\ UNCHANGED <<subs, np, advm, findm, pubs, cancelled, found>>
+            /\ UNCHANGED <<subs, np, advm, findm, pubs, cancelled, found, pre>>
 Unrelay(t) == /\ relays[t] > 0 /\ relays' = [relays EXCEPT ![t] = @ - 1]
               /\ Log(St("unrelay", t, "", 0, 0, "", 0))
-              /\ UNCHANGED <<subs, joined, np, advm, findm, pubs, cancelled, held, found>>
+              /\ UNCHANGED <<subs, joined, np, advm, findm, pubs, cancelled, held, found, pre>>
 Join(t) == /\ MayUse(t) /\ t \notin joined /\ joined' = joined \cup {t}
            /\ Log(St("join", t, "", 0, 0, "", 0))
-           /\ UNCHANGED <<subs, relays, np, advm, findm, pubs, cancelled, held, found>>
+           /\ UNCHANGED <<subs, relays, np, advm, findm, pubs, cancelled, held, found, pre>>
 \* Topic.Close: refused by the node while subscriptions or relays exist (the stimulus is generated all the same)
 Close(t) == /\ t \in joined /\ joined' = IF subs[t] + relays[t] = 0 THEN joined \ {t} ELSE joined
             /\ Log(St("closeTopic", t, "", 0, 0, "", 0))
-            /\ UNCHANGED <<subs, relays, np, advm, findm, pubs, cancelled, held, found>>
+            /\ UNCHANGED <<subs, relays, np, advm, findm, pubs, cancelled, held, found, pre>>
 Peers(t, k) == /\ MayUse(t) /\ k # np[t] /\ np' = [np EXCEPT ![t] = k]
                /\ Log(St("peers", t, "", k, 0, "", 0))
-               /\ UNCHANGED <<subs, relays, joined, advm, findm, pubs, cancelled, held, found>>
+               /\ UNCHANGED <<subs, relays, joined, advm, findm, pubs, cancelled, held, found, pre>>
 SvcAdv(md) == /\ md # advm /\ advm' = md
               /\ Log(St("svcadv", "", "", 0, 0, md, 0))
-              /\ UNCHANGED <<subs, relays, joined, np, findm, pubs, cancelled, held, found>>
+              /\ UNCHANGED <<subs, relays, joined, np, findm, pubs, cancelled, held, found, pre>>
 SvcFind(md) == /\ md # findm /\ findm' = md
                /\ Log(St("svcfind", "", "", 0, 0, md, 0))
-               /\ UNCHANGED <<subs, relays, joined, np, advm, pubs, cancelled, held, found>>
+               /\ UNCHANGED <<subs, relays, joined, np, advm, pubs, cancelled, held, found, pre>>
 Release(w) == /\ w \in held /\ held' = held \ {w}
               /\ Log(St("release", "", "", 0, 0, w, 0))
-              /\ UNCHANGED <<subs, relays, joined, np, advm, findm, pubs, cancelled, found>>
+              /\ UNCHANGED <<subs, relays, joined, np, advm, findm, pubs, cancelled, found, pre>>
 PubName(k) == CASE k = 1 -> "a1" [] k = 2 -> "a2" [] k = 3 -> "a3" [] OTHER -> "a4"
 Pub(t, n, to) == /\ MayUse(t) /\ Len(pubs) < MaxPub
                  /\ pubs' = Append(pubs, to) /\ joined' = joined \cup {t}
                  /\ Log(St("pub", t, PubName(Len(pubs) + 1), n, to, "", 0))
                  /\ held' = held \cup (IF findm = "hold" THEN {"find"} ELSE {})
-                 /\ UNCHANGED <<subs, relays, np, advm, findm, cancelled, found>>
+                 /\ UNCHANGED <<subs, relays, np, advm, findm, cancelled, found, pre>>
 CancelPub(k) == /\ k \in DOMAIN pubs /\ pubs[k] = 0 /\ k \notin cancelled /\ cancelled' = cancelled \cup {k}
                 /\ Log(St("cancelpub", "", PubName(k), 0, 0, "", 0))
-                /\ UNCHANGED <<subs, relays, joined, np, advm, findm, pubs, held, found>>
+                /\ UNCHANGED <<subs, relays, joined, np, advm, findm, pubs, held, found, pre>>
 \* a peer the service has returned (mode "peers") opens its stream and announces every topic
 Found == /\ ~found /\ \E i \in DOMAIN hist : hist[i].a = "svcfind" /\ hist[i].mode = "peers"
          /\ found' = TRUE /\ Log(St("found", "", "", 0, 0, "", 0))
-         /\ UNCHANGED <<subs, relays, joined, np, advm, findm, pubs, cancelled, held>>
+         /\ UNCHANGED <<subs, relays, joined, np, advm, findm, pubs, cancelled, held, pre>>
 Elapse(s) == /\ hist # <<>> /\ Log(St("elapse", "", "", 0, 0, "", s))
              /\ held' = held \cup (IF findm = "hold" /\ joined # {} THEN {"find"} ELSE {})
-             /\ UNCHANGED <<subs, relays, joined, np, advm, findm, pubs, cancelled, found>>
+             /\ UNCHANGED <<subs, relays, joined, np, advm, findm, pubs, cancelled, found, pre>>
 
 Next == /\ Len(hist) < PreLen + MaxLen
         /\ \/ \E t \in Topics : Subscribe(t) \/ Cancel(t) \/ Relay(t) \/ Unrelay(t) \/ Join(t) \/ Close(t)
@@ -116,5 +119,5 @@ Next == /\ Len(hist) < PreLen + MaxLen
            \/ \E s \in Waits : Elapse(s)
 Spec == Init /\ [][Next]_vars
 
-Emit == (Len(hist) = PreLen + MaxLen) => PrintT(<<"SCN", ToJson([evs |-> hist])>>)
+Emit == (Len(hist) = PreLen + MaxLen) => PrintT(<<"SCN", ToJson([pre |-> pre, evs |-> hist])>>)
 =============================================================================
